@@ -39,6 +39,20 @@ def scan_module_state(rep):
                 if isinstance(n, ast.Subscript) and isinstance(n.ctx, (ast.Store, ast.Del)) and \
                         isinstance(n.value, ast.Name) and n.value.id in visible and not _shadowed(fn, n.value.id):
                     bad.append(f"{m}:{qual}: {loader.norm(n)[:70]} (item store)")
+                # a local bound to the module-level object and then mutated: v = NAME ... v[i] = x / v.append(x)
+                if isinstance(n, (ast.Assign, ast.AnnAssign)) and n.value is not None and isinstance(n.value, ast.Name) \
+                        and n.value.id in visible and not _shadowed(fn, n.value.id):
+                    tg = n.targets if isinstance(n, ast.Assign) else [n.target]
+                    for t in tg:
+                        if isinstance(t, ast.Name):
+                            for n2 in effects._own_nodes(fn):
+                                if isinstance(n2, ast.Subscript) and isinstance(n2.ctx, (ast.Store, ast.Del)) and \
+                                        isinstance(n2.value, ast.Name) and n2.value.id == t.id:
+                                    bad.append(f"{m}:{qual}: {loader.norm(n2)[:50]} through the alias {t.id} = {n.value.id}")
+                                if isinstance(n2, ast.Call) and isinstance(n2.func, ast.Attribute) and \
+                                        isinstance(n2.func.value, ast.Name) and n2.func.value.id == t.id and \
+                                        n2.func.attr in effects.MUTATORS:
+                                    bad.append(f"{m}:{qual}: {loader.norm(n2)[:50]} through the alias {t.id} = {n.value.id}")
                 # alias stored into an object field or a local: X.attr = NAME / v = NAME
                 if isinstance(n, (ast.Assign, ast.AnnAssign)) and n.value is not None and isinstance(n.value, ast.Name) \
                         and n.value.id in visible and not _shadowed(fn, n.value.id):
